@@ -342,3 +342,63 @@ func extCtxFlow(sb *strings.Builder, repo string, it Item) {
 	}
 	fmt.Fprintf(sb, "(* from %s : %s passes %s to %s *)\nDefinition c_ctx_%s : Z := %d.\n", it.File, it.Func, arg, it.Stmt, it.Name, code)
 }
+
+// ---------------------------------------------------------------------------------------------
+// item kind "forbound" (C11): bounds of the single counting loop `for i := A; i < B; i++` of Func,
+// plus standard-library size constants that the function must mention textually.
+//
+//   {"kind":"forbound","file":"crypto/data_with_hash.go","func":"GuessDataWithHash","name":"guess",
+//    "names":["sha1.Size"]}
+//
+// Emits  Definition c_<name>_from : Z := A.   Definition c_<name>_to : Z := B.
+//        Definition c_sha1_Size : Z := 20.    (for each listed name, "." -> "_")
+func extForBound(sb *strings.Builder, repo string, it Item, pc *pkgConsts) {
+	f, err := parser.ParseFile(fset, filepath.Join(repo, it.File), nil, 0)
+	if err != nil {
+		die("parse %s: %v", it.File, err)
+	}
+	fd := findFunc(f, it.Func)
+	if fd == nil || fd.Body == nil {
+		die("function %s not found in %s", it.Func, it.File)
+	}
+	var loops []*ast.ForStmt
+	ast.Inspect(fd.Body, func(n ast.Node) bool {
+		if fs, ok := n.(*ast.ForStmt); ok {
+			loops = append(loops, fs)
+		}
+		return true
+	})
+	if len(loops) != 1 {
+		die("%s: expected exactly one for loop, found %d", it.Func, len(loops))
+	}
+	fs := loops[0]
+	init, ok1 := fs.Init.(*ast.AssignStmt)
+	cond, ok2 := fs.Cond.(*ast.BinaryExpr)
+	post, ok3 := fs.Post.(*ast.IncDecStmt)
+	if !ok1 || !ok2 || !ok3 || init.Tok != token.DEFINE || len(init.Lhs) != 1 || len(init.Rhs) != 1 ||
+		cond.Op != token.LSS || post.Tok != token.INC || show(cond.X) != show(init.Lhs[0]) || show(post.X) != show(init.Lhs[0]) {
+		die("%s: loop is not of the form `for i := A; i < B; i++` (shape not understood): %s", it.Func, show(fs.Init)+"; "+show(fs.Cond)+"; "+show(fs.Post))
+	}
+	from, okf := pc.eval(init.Rhs[0], 0)
+	to, okt := pc.eval(cond.Y, 0)
+	if !okf || !okt {
+		die("%s: loop bounds are not constants", it.Func)
+	}
+	fmt.Fprintf(sb, "(* from %s : %s : for %s; %s; %s *)\nDefinition c_%s_from : Z := %s.\nDefinition c_%s_to : Z := %s.\n",
+		it.File, it.Func, show(fs.Init), show(fs.Cond), show(fs.Post), it.Name, zlit(from), it.Name, zlit(to))
+	src := show(fd.Body)
+	for _, n := range it.Names {
+		if !strings.Contains(src, n) {
+			die("%s: no longer mentions %s", it.Func, n)
+		}
+		parts := strings.SplitN(n, ".", 2)
+		if len(parts) != 2 {
+			die("forbound: %s is not pkg.Name", n)
+		}
+		v, ok := pc.eval(&ast.SelectorExpr{X: ast.NewIdent(parts[0]), Sel: ast.NewIdent(parts[1])}, 0)
+		if !ok {
+			die("forbound: constant %s unknown to the translator", n)
+		}
+		fmt.Fprintf(sb, "Definition c_%s : Z := %s.\n", strings.ReplaceAll(n, ".", "_"), zlit(v))
+	}
+}
